@@ -129,7 +129,10 @@ fn typecheck_single_file_for_query(
 /// The offset of a (line, column) position. `LineIndex::offset` adds the column to the start of
 /// the line unchecked, so a column no text can have is refused here.
 fn offset_of_position(src: &str, line: u32, col: u32) -> Option<TextSize> {
-    if col as usize > src.len() {
+    // a column past the end of its line is no position: added to the line's start it would be
+    // an offset in one of the following lines
+    let line_len = src.split('\n').nth(line as usize)?.len();
+    if col as usize > line_len {
         return None;
     }
     line_index::LineIndex::new(src).offset(line_index::LineCol { line, col })
